@@ -141,7 +141,10 @@ impl<'a> __Type<'a> {
     }
 
     async fn interfaces(&self) -> Option<Vec<__Type<'a>>> {
-        if let TypeDetail::Named(registry::MetaType::Object { name, .. }) = &self.detail {
+        if let TypeDetail::Named(
+            registry::MetaType::Object { name, .. } | registry::MetaType::Interface { name, .. },
+        ) = &self.detail
+        {
             Some(
                 self.registry
                     .implements
